@@ -4,6 +4,7 @@ package main
 import (
 	"flag"
 	"fmt"
+	"os"
 
 	"github.com/canopy-network/canopy/lib"
 	"verifharness/bftsim"
@@ -16,9 +17,15 @@ func main() {
 	runs := flag.Int("runs", 30, "random recorded runs")
 	ticks := flag.Int("ticks", 60, "ticks per random run")
 	inject := flag.Int("inject", 150, "state-injection cases")
+	prop := flag.Int("prop", 1, "1: agreement (scenarios, recorded runs, state injection); 15: liveness (adversarial prefix, then a healed network in virtual time)")
+	healRounds := flag.Int("heal-rounds", 12, "rounds after the heal within which every correct replica must have committed")
 	outDir := flag.String("outdir", ".", "output directory")
 	_ = flag.String("replay", "", "replay file (cases regenerate deterministically from the seed)")
 	flag.Parse()
+	if *scenario == "" && *prop == 15 {
+		liveMode(*runs, *ticks, uint64(*healRounds), *outDir)
+		return
+	}
 	if *scenario == "" {
 		checkMode(*runs, *ticks, *inject, *outDir)
 		return
@@ -31,6 +38,17 @@ func main() {
 		}
 		n, story, err := scenarioStaleHighQCAcrossRootUpdate(*scenario != "root-update-control", root, *verbose)
 		report(n, story, err)
+	case "heal-debug":
+		sim.RegisterKeys(16)
+		nn, _ := bftsim.New([]uint64{100, 100, 100, 100}, 5)
+		nn.Verbose = *verbose
+		correct := map[int]bool{0: true, 1: true, 2: true}
+		h := heal(sim.NewRng(7), nn, correct, 3, 6)
+		fmt.Printf("%+v\n", h)
+		for i, rp := range nn.Reps {
+			fmt.Println(i, "round", rp.B.Round, "phase", rp.B.Phase, "committed", rp.Committed != nil, "rejected", rp.Rejected)
+		}
+		return
 	case "stale-block-hash-cache", "block-hash-cache-control":
 		n, story, err := scenarioStaleBlockHashCache(*scenario == "stale-block-hash-cache", *verbose)
 		report(n, story, err)
@@ -125,4 +143,52 @@ func checkMode(runs, ticks, inject int, outDir string) {
 	st.Strategy["state-injection"] = inject
 	fmt.Printf("c01: %d state-injection cases by phase %v; ", inject, phases)
 	fmt.Printf("%d recorded runs (%d with commits), %d actions, %d commits observed, strategies %v; scripted scenarios %v\n", st.Cases, st.Distinct, st.Actions, st.Commits, st.Strategy, st.Scenarios)
+}
+
+type liveStats struct {
+	Cases    int            `json:"cases"`
+	Distinct int            `json:"distinct_nontrivial"`
+	Skipped  int            `json:"skipped_committed_in_prefix"`
+	Rounds   map[string]int `json:"rounds_needed_after_heal"`
+	Locked   map[string]int `json:"distinct_locks_at_heal"`
+	Strategy map[string]int `json:"prefix_strategies"`
+	Samples  []string       `json:"samples"`
+}
+
+// liveMode (property C15): an adversarial prefix, then the healed network in virtual time
+func liveMode(runs, ticks int, maxRounds uint64, outDir string) {
+	sim.RegisterKeys(16)
+	st := &liveStats{Rounds: map[string]int{}, Locked: map[string]int{}, Strategy: map[string]int{}}
+	r := sim.NewRng(sim.SeedFromEnv())
+	cw := &sim.CaseWriter{OutDir: outDir, Name: "c15", Imports: "From V Require Import U64 Extracted Bft BftNet BftLive.", CaseType: "live_case", MFun: "live_mismatches", VFun: "live_violations", PerShard: 200}
+	for i := 0; i < runs; i++ {
+		rr := r.Fork()
+		_, meta, _ := randomRun(rr, 10+rr.Intn(ticks))
+		h := heal(rr, lastRun.n, lastRun.correct, lastRun.byz, maxRounds)
+		if h.Skipped != "" {
+			st.Skipped++
+			continue
+		}
+		cw.Add(healLit(lastRun.powers, lastRun.byz, h, maxRounds), map[string]any{"prefix": meta, "start_rounds": h.StartRounds, "committed": h.Committed, "rounds_needed": h.RoundsNeeded,
+			"virtual_ms": h.VirtualMS, "locked_replicas": h.Locked, "distinct_locks": h.DistinctLocks})
+		st.Cases++
+		if !h.Committed && os.Getenv("VERIF_DEBUG") != "" {
+			fmt.Printf("NEVER: %v byz=%d strategy=%v startRounds=%v\n", lastRun.powers, lastRun.byz, meta["strategy"], h.StartRounds)
+			for i, rp := range lastRun.n.Reps {
+				fmt.Printf("   replica %d root %d round %d phase %s lock %s proposer %d rejected %v\n", i, rp.B.RootHeight, rp.B.Round, rp.B.Phase, lastRun.n.LockOf(i), lastRun.n.IndexOf(rp.B.ProposerKey), rp.Rejected)
+			}
+		}
+		if h.Locked > 0 {
+			st.Distinct++
+		}
+		if h.Committed {
+			st.Rounds[fmt.Sprint(h.RoundsNeeded)]++
+		} else {
+			st.Rounds["never"]++
+		}
+		st.Locked[fmt.Sprint(h.DistinctLocks)]++
+		st.Strategy[fmt.Sprint(meta["strategy"])]++
+	}
+	cw.Close(st)
+	fmt.Printf("c15: %d healed runs (%d with locked replicas at the heal, %d skipped: committed in the prefix); rounds needed after the heal %v; distinct locks at the heal %v\n", st.Cases, st.Distinct, st.Skipped, st.Rounds, st.Locked)
 }
